@@ -226,7 +226,7 @@ def _create_default_registry() -> OperatorRegistry:
     ops.register(tokens.LN, "LN({0})")
     ops.register(tokens.SQRT, "SQRT({0})")
     # Logical
-    ops.register(tokens.NOT, "NOT {0}", is_prefix=True)
+    ops.register(tokens.NOT, "(NOT {0})", is_prefix=True)
     # String functions
     ops.register(tokens.LEN, "LENGTH({0})")
     ops.register(tokens.TRIM, "TRIM({0})")
